@@ -279,9 +279,13 @@ func cmdCheck(args []string) int {
 		"wall_s":      time.Since(t0).Seconds(),
 		"violations":  len(violations),
 	}
-	os.MkdirAll(filepath.Join(*verif, "evidence"), 0o755)
+	evDir := filepath.Join(*verif, "evidence")
+	if d := os.Getenv("GOVC_EVIDENCE_DIR"); d != "" {
+		evDir = d // the must-fail selftest must not overwrite the evidence of the real tree
+	}
+	os.MkdirAll(evDir, 0o755)
 	eb, _ := json.MarshalIndent(ev, "", " ")
-	if err := os.WriteFile(filepath.Join(*verif, "evidence", *prop+".json"), eb, 0o644); err != nil {
+	if err := os.WriteFile(filepath.Join(evDir, *prop+".json"), eb, 0o644); err != nil {
 		return fail(err.Error())
 	}
 	fmt.Printf("property %s tier %s: %d functions under contract, %d obligations, %d discharged, %d canaries ok of %d, %d known-finding obligations, %.1fs\n",
